@@ -41,6 +41,11 @@ def check(ctx):
     for rid, fn in (("C05-A", rule_a), ("C05-B", rule_b), ("C05-C", rule_c), ("C05-D", rule_d), ("C05-E", rule_e),
                     ("C05-F", rule_f), ("C05-G", rule_g), ("C05-H", rule_h)):
         ctx.guard(rid, fn)
+    # bars stand at the same positions in every row only if every row walks the columns the same way: the column
+    # cursors advance by the cell's colspan on every path (rule shared with C06-A)
+    from . import C06
+    ctx.rule("C05-I", "every per-row column walk advances its cursor by the cell's colspan on every path (also for skipped cells)")
+    ctx.guard("C05-I", C06.rule_a, "C05-I")
 
 
 def seg_names(F):
